@@ -23,8 +23,9 @@ Act(e) ==
     [] e.a = "merge" -> MergeComposite(e.i, e.j, e.path)
     [] e.a = "loose" -> MergeLoose(e.i, e.n, e.path)
     [] e.a = "both"  -> MergeBoth(e.i, e.j, e.n, e.path)
+    [] e.a = "reload" -> Reload(e.i)
 
-Target(e) == IF e.a = "gen" THEN Len(objs') ELSE e.i
+Target(e) == IF e.a \in {"gen", "reload"} THEN Len(objs') ELSE e.i
 Fails(e) ==
   (IF Len(e.objs) # Len(objs') THEN {"count"} ELSE
      (IF ObjBad(e.objs[Target(e)], objs'[Target(e)]) THEN {"target"} ELSE {})
